@@ -76,7 +76,83 @@ def _run_tee(case, sync):
     return {"out": [out[c] for c in range(case["n"])], "ends": [ends.get(c) for c in range(case["n"])]}
 
 
+# ---- heapq's binary heap: Machines/Heap.lean vs the real `heapq` module (edge B) -------------------------------------
+# merge and nlargest/nsmallest delegate their ordering to heapq.heapify / heapreplace / heappop; the Lean model contains
+# those algorithms as written (Properties/C01Heap.lean proves they implement the abstract "minimum entry" the merge
+# model uses).  Same algorithm => identical array layout after every operation, not just the same multiset.
+
+
+class _HK:
+    __slots__ = ("v", "d")
+
+    def __init__(self, v, d):
+        self.v, self.d = v, d
+
+    def __lt__(self, other):
+        return self.v // self.d < other.v // other.d
+
+
+def _heap_cases(tier, rng):
+    import itertools as _it
+    for init in _it.chain.from_iterable(_it.product(range(3), repeat=n) for n in range(0, 5)):
+        yield {"tool": "heapq", "family": "heap", "init": list(init), "div": 1,
+               "ops": [["heapify"], ["replace", 1], ["pop"], ["push", 0], ["pop"], ["pop"], ["replace", 2]],
+               "srcs": [{"kind": "list", "script": []}], "params": {}}
+    for _ in range(400 if tier == "quick" else 6000):
+        ops = []
+        for _ in range(rng.randint(0, 25)):
+            r = rng.random()
+            if r < 0.3:
+                ops.append(["push", rng.randint(-10, 30)])
+            elif r < 0.55:
+                ops.append(["pop"])
+            elif r < 0.8:
+                ops.append(["replace", rng.randint(-10, 30)])
+            elif r < 0.9:
+                ops.append(["heapify"])
+            elif r < 0.95:
+                ops.append(["siftup", rng.randint(0, 22)])
+            else:
+                p = rng.randint(0, 22)
+                ops.append(["siftdown", rng.randint(0, p), p])
+        yield {"tool": "heapq", "family": "heap", "init": [rng.randint(-10, 30) for _ in range(rng.randint(0, 20))],
+               "div": rng.choice([1, 1, 1, 2, 3, 5]), "ops": ops, "srcs": [{"kind": "list", "script": []}], "params": {}}
+
+
+def _observe_heap(case):
+    import heapq
+    d = case["div"]
+    h = [_HK(v, d) for v in case["init"]]
+    heaps, outs = [], []
+    for op in case["ops"]:
+        o = None
+        try:
+            if op[0] == "push":
+                heapq.heappush(h, _HK(op[1], d))
+            elif op[0] == "pop":
+                o = heapq.heappop(h).v
+            elif op[0] == "replace":
+                o = heapq.heapreplace(h, _HK(op[1], d)).v
+            elif op[0] == "heapify":
+                heapq.heapify(h)
+            elif op[0] == "siftup":
+                if op[1] >= len(h):
+                    raise IndexError
+                heapq._siftup(h, op[1])
+            elif op[0] == "siftdown":
+                if op[2] >= len(h):
+                    raise IndexError
+                heapq._siftdown(h, op[1], op[2])
+        except IndexError:
+            o = "IndexError"
+        heaps.append([k.v for k in h])
+        outs.append(o)
+    return {"heapq": {"heaps": heaps, "outs": outs}, "async": {"out": ["exhausted"], "vis": [["yield", ["i", 1]]] if case["ops"] else []}}
+
+
 def observe(case):  # noqa: F811
+    if case.get("family") == "heap":
+        return _observe_heap(case)
     if case.get("family") == "tee":
         a = _run_tee(case, False)
         return {"tee_async": a, "tee_sync": _run_tee(case, True), "async": {"out": ["exhausted"], "vis": [["yield", v] for v in a["out"][0]]}}
@@ -84,12 +160,16 @@ def observe(case):  # noqa: F811
 
 
 def model_request(case):  # noqa: F811
+    if case.get("family") == "heap":
+        return {"m": "heap", "init": case["init"], "ops": case["ops"], "div": case["div"]}
     if case.get("family") == "tee":
         return None
     return s1.model_request(case)
 
 
 def features(case, obs):  # noqa: F811
+    if case.get("family") == "heap":
+        return ["tool=heapq", "heap:ops=%d" % min(len(case["ops"]), 9), "heap:div=%d" % case["div"]]
     if case.get("family") == "tee":
         return ["tool=tee", "kind=" + case["srcs"][0]["kind"]]
     return s1.features(case, obs)
@@ -97,6 +177,7 @@ def features(case, obs):  # noqa: F811
 
 def cases(tier, rng):
     yield from _tee_cases(tier)
+    yield from _heap_cases(tier, rng)
     yield from s1.base_cases(tier, rng, s1.KINDS_ALL, s1.cons_exhaust, tools_subset=s1.ITER_TOOLS, maxlen=4 if tier == "quick" else 5)
     yield from s1.odd_value_cases(tier, rng, s1.KINDS_ALL, 1500 if tier == "quick" else 20000, tools_subset=s1.ITER_TOOLS)
     yield from s1.impure_fn_cases(tier, rng, s1.KINDS_ALL, tools_subset=s1.ITER_TOOLS)
@@ -109,6 +190,13 @@ def _proj(vis, out):
 
 def judge(case, obs, model):
     issues = []
+    if case.get("family") == "heap":
+        if model is None or "error" in model:
+            return [Issue("B", model or {"error": "no model answer"})]
+        if model != obs["heapq"]:
+            k = next((i for i, (a, b) in enumerate(zip(model["heaps"], obs["heapq"]["heaps"])) if a != b), None)
+            return [Issue("B", {"first_diff_at_op": k, "heapq": obs["heapq"], "model": model})]
+        return []
     if case.get("family") == "tee":
         if obs["tee_async"] != obs["tee_sync"]:
             issues.append(Issue("oracle", {"asyncstdlib": obs["tee_async"], "itertools": obs["tee_sync"]}, "items-differ:tee"))
